@@ -439,6 +439,7 @@ def fault_scenarios(rnd, thorough):
                                                      "window": rnd.random() < 0.5, "double": True, "pos2": pos2, "sub": True}})
     for pos in (FAULT_POS if thorough else ["cut-payload", "after"]):
         scen.append({"sc": "c03.fault", "args": {"dir": "s2c", "frame": 1, "pos": pos, "style": "fin", "noreconnect": True}})
+    scen.append({"sc": "trap.staledelete", "args": {}})     # TLC counterexample of WsRpc_c03_nostalefix.cfg, forced with gates
     for errors in (False, True):
         for hold in ([1, 20, 60] if thorough else [20]):
             scen.append({"sc": "c03.writefail", "args": {"errors": errors, "holdms": hold, "style": rnd.choice(["fin", "rst"])}})
@@ -547,8 +548,11 @@ def c05(run, replay):
     wd = run.dir("work")
     rnd = random.Random(run.seed)
     run.model_check(wd, "WsRpc.tla", "WsRpc_c05.cfg", timeout=1800)
+    r = run.tlc(wd, "WsRpc.tla", "WsRpc_c03_nostalefix.cfg", timeout=900, tag="model_runs")
+    if r["violated"] != "NoLostCall":
+        raise vp.ToolFailure("self-test: WsRpc without the stale-delete repair should lose a retried call, got %s" % r["violated"])
     fs = fault_scenarios(rnd, False)
-    scen = outage_scenarios(rnd, thorough) + [s for s in fs if s["args"].get("window")][:10] + [s for s in fs if s["sc"] == "c03.writefail"]
+    scen = outage_scenarios(rnd, thorough) + [s for s in fs if s["args"].get("window")][:10] + [s for s in fs if s["sc"] in ("c03.writefail", "trap.staledelete")]
     trace, viol = run_ws_scenarios(run, wd, scen, "c05", hooks=True, timeout=3000)
     report_ws(run, trace, viol, "C05", scen, "outage")
     run.cov["distinct_nontrivial"] = len(set(json.dumps(s, sort_keys=True) for s in scen))
